@@ -231,7 +231,7 @@ def check_parse(case, ctx):
             ctx.sample({'ridges': ridges, 'ds': ds, 'baselines': [np.asarray(b).tolist() for b in b_list], 'heights': [list(map(float, h)) for h in h_list]})
 
 
-PRINT_SIZES = [30, 48, 110, 200, 320]          # ascender heights (original pixels) of the text on a 2400 x 1800 page
+PRINT_SIZES = [30, 48, 84, 110, 200, 320]          # ascender heights (original pixels) of the text on a 2400 x 1800 page
 PAGE_HW = (2400, 1800)
 
 
